@@ -242,6 +242,12 @@ func runC14(c *run.Ctx) {
 		q := htmlAttrQuote(string(u))
 		entry([]byte("<a href=" + q + "><img src=" + q + "><q cite=" + q + ">"))
 	})
+	for _, pre := range urlPrefixes {
+		SeqsS(c, "c14urltail"+pre, urlTailFrags, 1, 3, func(u []byte, _ []int) {
+			q := htmlAttrQuote(pre + string(u))
+			entry([]byte("<a href=" + q + "><img src=" + q + ">"))
+		})
+	}
 	SeqsS(c, "c14data", dataURIFrags, 1, 3, func(u []byte, _ []int) {
 		entry([]byte("<img src=" + htmlAttrQuote(string(u)) + ">"))
 		entry([]byte("<img src=" + htmlAttrQuote("data:"+string(u)) + ">"))
